@@ -71,16 +71,33 @@ theorem loopC_mono {σ : Type} (h h' : σ → List SExp → R σ) (hh : ∀ s ys
 
 /-! ### `strip`, construct by construct -/
 
-/-- a port: properties and comments go -/
-def stripPort (ys : List SExp) : List SExp :=
+/-- the direction token in capitals (the reader compares it ignoring case) -/
+def canonDirTok (t : SExp) : SExp :=
+  if isKw t "inout" then A "INOUT" else if isKw t "input" then A "INPUT" else if isKw t "output" then A "OUTPUT" else t
+
+def subPort (ys : List SExp) : List SExp :=
   match ys with
-  | kw :: nm :: items => kw :: nm :: stripItems (noiseIn ["property", "comment"]) id items
+  | [k, t] => if isKw k "direction" then [k, canonDirTok t] else ys
   | _ => ys
 
-/-- an instance: comments go (its properties are kept) -/
+/-- a port: properties and comments go; the direction is written in capitals -/
+def stripPort (ys : List SExp) : List SExp :=
+  match ys with
+  | kw :: nm :: items => kw :: nm :: stripItems (noiseIn ["property", "comment"]) subPort items
+  | _ => ys
+
+/-- a property that is kept: its `(owner …)` goes (the reader checks it and stores nothing) -/
+def stripProp (ys : List SExp) : List SExp :=
+  match ys with
+  | kw :: nm :: v :: tail => kw :: nm :: v :: stripItems (noiseIn ["owner"]) id tail
+  | _ => ys
+
+def subInst (ys : List SExp) : List SExp := if headIs ys "property" then stripProp ys else ys
+
+/-- an instance: comments go (its properties are kept, without their owner) -/
 def stripInst (ys : List SExp) : List SExp :=
   match ys with
-  | kw :: nm :: vr :: items => kw :: nm :: vr :: stripItems (noiseIn ["comment"]) id items
+  | kw :: nm :: vr :: items => kw :: nm :: vr :: stripItems (noiseIn ["comment"]) subInst items
   | _ => ys
 
 /-- a net: properties and comments go -/
@@ -114,21 +131,51 @@ theorem not_kept_of_noise (ks : List String) (ys : List SExp) (k : String) (hn :
     obtain ⟨x, hx, hxs⟩ := hn
     exact absurd (headIs_two ys x k hxs hh) (hk x hx)
 
+theorem headIs_subPort (ys : List SExp) (k : String) : headIs (subPort ys) k = headIs ys k := by
+  unfold subPort
+  split
+  · split <;> rfl
+  · rfl
+
+theorem parseDirection_canon (ys : List SExp) (d : Dir) (h : parseDirection ys = .ok d) :
+    parseDirection (subPort ys) = .ok d := by
+  unfold parseDirection at h
+  split at h
+  · rename_i k t
+    unfold subPort
+    simp only
+    split
+    · unfold canonDirTok parseDirection
+      split at h
+      · rename_i h1; simp only [h1, if_true]; exact h
+      · rename_i h1
+        simp only [h1, Bool.false_eq_true, if_false]
+        split at h
+        · rename_i h2; simp only [h2, if_true]; exact h
+        · rename_i h2
+          simp only [h2, Bool.false_eq_true, if_false]
+          split at h
+          · rename_i h3; simp only [h3, if_true]; exact h
+          · cases h
+    · unfold parseDirection
+      exact h
+  · cases h
+
 theorem portItem_kept (s s' : PortSt) (ys : List SExp) (s1 : PortSt) (hr : PortStRel s s')
     (hnz : noiseIn ["property", "comment"] ys = false) (hs : portItem s ys = .ok s1) :
-    ∃ s1', portItem s' (id ys) = .ok s1' ∧ PortStRel s1 s1' := by
+    ∃ s1', portItem s' (subPort ys) = .ok s1' ∧ PortStRel s1 s1' := by
   simp only [noiseIn, List.any_cons, List.any_nil, Bool.or_false, Bool.or_eq_false_iff] at hnz
   obtain ⟨hp, hc⟩ := hnz
   obtain ⟨h0, h1, h2, h3⟩ := hr
   unfold portItem at hs ⊢
-  simp only [id, hp, hc, Bool.false_eq_true, if_false] at hs ⊢
+  simp only [headIs_subPort, hp, hc, Bool.false_eq_true, if_false] at hs ⊢
   rw [← h3]
   peel hs
-  rename_i d hd
+  rename_i hdir hnd _ d hd
   simp only [Except.ok.injEq] at hs
   subst hs
   refine ⟨{ s' with dir := d, hasDir := true }, ?_, h0, h1, rfl, rfl⟩
-  simp_all [bind, Except.bind, pure, Except.pure]
+  simp only [hdir, hnd, if_true, Bool.false_eq_true, if_false, parseDirection_canon ys d hd, bind, Except.bind, pure, Except.pure]
 
 theorem portItem_noise (s s' : PortSt) (ys : List SExp) (s1 : PortSt) (hr : PortStRel s s')
     (hnz : noiseIn ["property", "comment"] ys = true) (hs : portItem s ys = .ok s1) : PortStRel s1 s' := by
@@ -252,7 +299,7 @@ theorem parsePort_strip (ys : List SExp) (p : CPort) (hs : parsePort ys = .ok p)
       · cases hs
       · rename_i v2 hv2
         obtain ⟨s1, rest2⟩ := v2
-        obtain ⟨s1', hl', hrel⟩ := loopC_strip portItem (noiseIn ["property", "comment"]) id PortStRel
+        obtain ⟨s1', hl', hrel⟩ := loopC_strip portItem (noiseIn ["property", "comment"]) subPort PortStRel
           portItem_kept portItem_noise rest { m := m } { m := m } s1 rest2 ⟨hpfx, MRel.refl KO m, rfl, rfl⟩ hv2
         rw [hl']
         simp only at hs ⊢
